@@ -117,10 +117,10 @@ def handle : List String → String
         s!"{o.numDocs} {o.numNonNull};{showOptList (ds.map o.rank)};{showOptList (ds.map o.rankIfExists)};{showOptList (rs.map o.select)}"
       | none => "corrupt"
     | _, _, _ => "bad-op"
-  | ["i64_to_u64", x] => match x.toNat? with | some x => toString (Gen.i64_to_u64 (bv x)).toNat | none => "bad-op"
-  | ["u64_to_i64", x] => match x.toNat? with | some x => toString (Gen.u64_to_i64 (bv x)).toNat | none => "bad-op"
-  | ["f64_to_u64", x] => match x.toNat? with | some x => toString (Gen.f64_to_u64 (bv x)).toNat | none => "bad-op"
-  | ["u64_to_f64", x] => match x.toNat? with | some x => toString (Gen.u64_to_f64 (bv x)).toNat | none => "bad-op"
+  | ["i64_to_u64", x] => match x.toNat? with | some x => toString (Gen.Col.i64_to_u64 (bv x)).toNat | none => "bad-op"
+  | ["u64_to_i64", x] => match x.toNat? with | some x => toString (Gen.Col.u64_to_i64 (bv x)).toNat | none => "bad-op"
+  | ["f64_to_u64", x] => match x.toNat? with | some x => toString (Gen.Col.f64_to_u64 (bv x)).toNat | none => "bad-op"
+  | ["u64_to_f64", x] => match x.toNat? with | some x => toString (Gen.Col.u64_to_f64 (bv x)).toNat | none => "bad-op"
   | ["roundtrip", c, rows] =>
     match parseCard c, parseRows rows with
     | some c, some rows =>
